@@ -23,16 +23,21 @@ LEVEL_TEXT = ('soundness and completeness of the CNF encoding (every clause fami
               'class and reports NoSolutionError iff the class is empty for every sound and complete solver; the '
               'Operation/Basis/_tt_to_gate_type tables are regenerated from the source and re-proved; the ENCODER '
               '(constructor, the four variable-name helpers, _is_dont_cares_input, _add_exactly_one_of, '
-              '_init_default_cnf_formula with all seven clause families, fix_gate, forbid_wire, get_cnf) is '
-              'regenerated statement by statement from the source on every run and proved EQUAL to the hand model '
-              '(clause list in order, flags, error raised: C06_encoder_regenerated); encoder and decoder models are '
-              'also tied to the code clause-for-clause / circuit-for-circuit by correspondence')
+              '_init_default_cnf_formula with all seven clause families, fix_gate, forbid_wire, get_cnf) and the '
+              'DECODER _get_circuit_by_model are regenerated statement by statement from the source on every run and '
+              'proved EQUAL to the hand model (clause list in order, flags, error raised; the decoded Circuit on every '
+              'model list a solver can return: C06_encoder_regenerated); encoder and decoder models are also tied to '
+              'the code clause-for-clause / circuit-for-circuit by correspondence')
 LEVEL_NOTE = ('Coq kernel + vm_compute; translators T1, T3, T17 (T17: the encoder of CircuitFinderSat over the fixed '
               'prelude Model/SearchPy.v - ints as naturals, the IDPool as the structured variables of Model/Search.v by '
               'the naming scheme the harness inverts, CNF() as its clause list, a FunctionModel as (input_size, '
               'output_size, table); side conditions of the equality: the model truth table has 2^n cells per row and '
               'output_size rows; the basis resolution and the order of the forbidden-operation set are parameters of '
-              'the regenerated constructor; _get_circuit_by_model and find_circuit stay hand-modelled); '
+              'the regenerated constructor; the decoder equality holds for model lists that mention every predecessor '
+              'variable, set no output variable at an input gate and select a pair for every gate - outside them the '
+              'hand model answers before a circuit is built while the source fails inside Circuit.add_gate, compared by '
+              'correspondence only; the Circuit API under the decoder is the hand model of C02; find_circuit stays '
+              'hand-modelled); '
               'correspondence harness and pysat shim; the SAT solver is a '
               'hypothesis (sound and complete), so is the time limit path (same answer or SolverTimeOutError, exercised '
               'once per run); model is of the code repaired by fixes/D14.patch; "two-input gate reading inputs or '
